@@ -36,6 +36,8 @@ async fn run(mut sim: Sim, _seed: u64) -> Result<Value, String> {
         config.max_connection_backoff_ms = Some(maxb);
         config.connect_timeout_ms = Some(cto);
         config.max_concurrent_outstanding_connecting_connections = Some(cap);
+        // the limit on established connections governs who is let in, never who is dialed
+        config.max_concurrent_connections = [None, None, Some(0usize), Some(1)][sim.rng.gen_range(0..4)];
         quic(&mut config).max_idle_timeout_ms = Some(4_000);
         quic(&mut config).keep_alive_interval_ms = Some(1_000);
         sim.add_node(NodeCfg {
